@@ -1396,6 +1396,15 @@ impl<T: Serialize + for<'de> Deserialize<'de> + Clone + PartialEq + Send + Sync 
 
         let header_size = u32::from_le_bytes(size_bytes) as usize;
 
+        // A header cannot be longer than the file it is in; do not let a damaged
+        // length prefix size the allocation below.
+        let file_len = file.metadata().map(|m| m.len()).unwrap_or(0);
+        if header_size as u64 > file_len.saturating_sub(4) {
+            return Err(P2PError::Storage(StorageError::CorruptionDetected(
+                "Snapshot header length exceeds file size".to_string().into(),
+            )));
+        }
+
         // Read header
         let mut header_data = vec![0u8; header_size];
         file.read_exact(&mut header_data).map_err(|e| {
